@@ -176,6 +176,27 @@ Proof.
   - rewrite (H2 eq_refl) in E. discriminate.
 Qed.
 
+(* a previous gradient must have the shape of the node (otherwise the accumulating Add fails) *)
+Definition prior_ok (ds : list nat) (o : option T) : Prop :=
+  match o with Some g => wf g /\ dims g = ds | None => True end.
+Definition prior (o : option T) : assignment := fun idx => match o with Some g => elt g idx | None => 0 end.
+
+Lemma acc1_final (g0 : option T) ds (F f : assignment) (g : T) :
+  prior_ok ds g0 -> List.Forall (fun d : nat => (0 < d)%nat) ds -> isT ds f g ->
+  (forall idx, validIdx ds idx -> f idx = prior g0 idx + F idx) ->
+  acc1 g0 (ofFun ds F) = Some (Some g).
+Proof.
+  intros Hp Hpos Tg Hf. pose proof (isT_ofFun ds F Hpos) as TG. unfold acc1. destruct g0 as [gp|].
+  - destruct Hp as [Wgp Dgp]. assert (Tgp : isT ds (elt gp) gp) by (rewrite <- Dgp; apply isT_self, Wgp).
+    destruct (isT_add _ _ _ _ _ Tgp TG) as (r & Er & Tr). rewrite Er.
+    assert (r = g); [|subst r; reflexivity].
+    apply (isT_eq ds (fun i => elt gp i + F i)); [exact Tr|]. apply (isT_ext _ _ _ _ Tg).
+    intros idx Hv. rewrite (Hf idx Hv). reflexivity.
+  - assert (ofFun ds F = g); [|congruence].
+    apply (isT_eq ds F); [exact TG|]. apply (isT_ext _ _ _ _ Tg). intros idx Hv. rewrite (Hf idx Hv).
+    unfold prior. ring.
+Qed.
+
 (* ------------------------------------------------------------------------------------ *)
 (* 2. element-level semantics of the back-edge rules                                     *)
 (* ------------------------------------------------------------------------------------ *)
@@ -738,6 +759,41 @@ Qed.
 
 End Exact.
 
+(* ---- consequences of  bp_topo = fold over (p :: rest)  from a state hm ---- *)
+Section Split.
+Context {A : Type} {SA : Scalar A}.
+Notation T := (tensor A).
+Notation heap := (@heap A).
+Notation idseal := (fun (_ : option nat) (g : T) => g).
+
+(* whatever the outcome below p: the structure is kept, and so is the gradient of p and of every
+   untracked node *)
+Lemma split_any rd (H : heap) root p rest (hm : heap) logm x :
+  wf_heap H -> sameS H hm ->
+  bp_topo rd idseal H root = fold_left (process_node rd idseal) (p :: rest) (hm, logm, Ok tt) ->
+  (forall c, In c rest -> c < p) -> (x = p \/ trackedOf H x = false) ->
+  forall h2 log r, bp_topo rd idseal H root = (h2, log, r) -> sameS H h2 /\ gradOf h2 x = gradOf hm x.
+Proof.
+  intros W HS E Hrest Hx h2 log r E2. rewrite E in E2.
+  apply (fold_inv rd H x (p :: rest) hm logm (Ok tt) h2 log r); [|exact HS|exact E2].
+  intros c e Hc He Ht. pose proof (wf_heap_edgesOf _ W _ _ He) as Hlt.
+  destruct Hx as [->|Hx]; [|congruence].
+  destruct Hc as [<-|Hc]; [lia|]. specialize (Hrest c Hc). lia.
+Qed.
+
+(* a leaf p: the remaining fold is one node without edges *)
+Lemma split_leaf rd (H : heap) p (hm : heap) logm g :
+  sameS H hm -> edgesOf H p = [] -> gradOf hm p = Some g ->
+  fold_left (process_node rd idseal) [p] (hm, logm, Ok tt) = (setGrad hm p (Some g), (p, g) :: logm, Ok tt).
+Proof.
+  intros HS He Hg. cbn [fold_left process_node]. unfold gradOf in Hg.
+  destruct (nth_error hm p) as [nd|] eqn:En; [|discriminate]. cbn [obind] in Hg. rewrite Hg.
+  assert (Hed : nedges nd = []).
+  { rewrite <- He, (sameS_edges _ _ HS). unfold edgesOf. rewrite En. reflexivity. }
+  rewrite Hed. reflexivity.
+Qed.
+End Split.
+
 (* the two structural invariants of an extension by explicitly known nodes *)
 Section Ext.
 Context {A : Type} {SA : Scalar A}.
@@ -792,3 +848,103 @@ Ltac eqb_false Hp :=
   first [ rewrite eqb_off; reflexivity | apply eqb_lt_off; exact Hp | apply eqb_off_lt; exact Hp ].
 (* evaluating a state built from aupd at a node *)
 Ltac aq Hp := repeat first [ rewrite aupd_same | rewrite aupd_other by eqb_false Hp ].
+
+(* states: rewriting with the known values of the initial state *)
+Ltac s0q := repeat match goal with E : ?s ?j = _ |- context [?s ?j] =>
+                     match type of s with astate => rewrite E end end.
+(* one back edge of the abstract fold, innermost first *)
+Ltac aedge_step :=
+  match goal with
+  | |- context [aedge ?thr ?H ?fc ?s (?x, ?r)] =>
+      lazymatch s with
+      | aedge _ _ _ _ _ => fail
+      | _ => first [ rewrite (aedge_tracked thr H fc s x r) by assumption
+                   | rewrite (aedge_untracked thr H fc s x r) by assumption ]
+      end
+  end.
+(* one node of the abstract fold, innermost first *)
+Ltac anode_step Hp :=
+  match goal with
+  | |- context [anode ?thr ?H ?s ?c] =>
+      lazymatch s with
+      | context [anode _ _ _ _] => fail
+      | _ => erewrite (anode_some thr H s c) by (aq Hp; s0q; cbv beta iota; reflexivity)
+      end
+  end;
+  match goal with E : edgesOf ?H ?c = _ |- context [edgesOf ?H ?c] => rewrite E end;
+  cbn [fold_left]; repeat aedge_step.
+
+(* ---- the exact heap after the clip helper of the losses ---- *)
+Lemma nth_error_off2 {X} (h l l' : list X) k : nth_error (h ++ (l ++ l')) (length h + (length l + k)) = nth_error l' k.
+Proof. rewrite nth_error_app2 by lia. rewrite nth_error_app2 by lia. f_equal. lia. Qed.
+
+Section ClipX.
+Context {A : Type} {SA : Scalar A}.
+Notation T := (tensor A).
+Notation heap := (@heap A).
+Notation c0 := (@cst A SA 0 0).
+
+Lemma valOf_off2 (h l l' : heap) k : valOf (h ++ (l ++ l')) (length h + (length l + k)) = valOf l' k.
+Proof. unfold valOf. rewrite nth_error_off2. reflexivity. Qed.
+Lemma trackedOf_off2 (h l l' : heap) k : trackedOf (h ++ (l ++ l')) (length h + (length l + k)) = trackedOf l' k.
+Proof. unfold trackedOf. rewrite nth_error_off2. reflexivity. Qed.
+Lemma dirtyOf_off2 (h l l' : heap) k : dirtyOf (h ++ (l ++ l')) (length h + (length l + k)) = dirtyOf l' k.
+Proof. unfold dirtyOf. rewrite nth_error_off2. reflexivity. Qed.
+
+Lemma clip_X (h l : heap) x lo up hA y tr :
+  clip (h ++ l) x lo up = (hA, Ok y) -> trackedOf (h ++ l) x = tr -> dirtyOf (h ++ l) x = false ->
+  let L := length h in let n := length l in
+  exists xv v0 v1 v2 v3 v4, valOf (h ++ l) x = Some xv /\
+    v_unary (UPow c0) xv = Ok v0 /\ v_unary (UScale lo) v0 = Ok v1 /\ v_unary (UScale up) v0 = Ok v2 /\
+    v_same BiElMin xv v2 = Ok v3 /\ v_same BiElMax v1 v3 = Ok v4 /\ y = L + (n + 4) /\
+    hA = h ++ (l ++ [xnode v0 tr [(x, RPow (L + (n + 0)) x c0 true)] None;
+                     xnode v1 tr [(L + (n + 0), RScale (L + (n + 1)) lo)] None;
+                     xnode v2 tr [(L + (n + 0), RScale (L + (n + 2)) up)] None;
+                     xnode v3 tr [(x, RElSel (L + (n + 3)) x (L + (n + 2))); (L + (n + 2), RElSel (L + (n + 3)) (L + (n + 2)) x)] None;
+                     xnode v4 tr [(L + (n + 1), RElSel (L + (n + 4)) (L + (n + 1)) (L + (n + 3)));
+                                  (L + (n + 3), RElSel (L + (n + 4)) (L + (n + 3)) (L + (n + 1)))] None]).
+Proof.
+  intros E Et Ed L n. unfold clip in E.
+  apply hbind_ok in E as (h1 & one & E1 & E). apply hbind_ok in E as (h2 & lower & E2 & E).
+  apply hbind_ok in E as (h3 & upper & E3 & E). apply hbind_ok in E as (h4 & ym & E4 & E5).
+  unfold h_pow in E1. apply (op1_X h l _ _ _ _ _ _ tr) in E1; [|exact Et|exact Ed]. destruct E1 as (xv & v0 & Vx & F0 & -> & ->).
+  assert (Hx : x < length (h ++ l)) by (eapply valOf_some_lt; eauto).
+  assert (Tx : forall l', trackedOf (h ++ (l ++ l')) x = tr).
+  { intros l'. rewrite app_assoc, trackedOf_app by exact Hx. exact Et. }
+  assert (Dx : forall l', dirtyOf (h ++ (l ++ l')) x = false).
+  { intros l'. rewrite app_assoc, dirtyOf_app by exact Hx. exact Ed. }
+  assert (Vx' : forall l', valOf (h ++ (l ++ l')) x = Some xv).
+  { intros l'. rewrite app_assoc, valOf_app by exact Hx. exact Vx. }
+  fold n in E2, E3, E4, E5 |- *. fold L in E2, E3, E4, E5 |- *.
+  replace (L + n) with (L + (n + 0)) in * by lia.
+  (* lower *)
+  unfold h_scale in E2. apply (op1_X h _ _ _ _ _ _ _ tr) in E2;
+    [|unfold L, n; rewrite trackedOf_off2; reflexivity|unfold L, n; rewrite dirtyOf_off2; reflexivity].
+  destruct E2 as (ov & v1 & Vo & F1 & -> & ->).
+  unfold L, n in Vo. rewrite valOf_off2 in Vo. cbn in Vo. inversion Vo; subst ov. clear Vo.
+  rewrite <- !app_assoc in *. cbn [app] in *. rewrite !app_length in *. cbn [length] in *. fold n L in E3, E4, E5 |- *.
+  (* upper *)
+  unfold h_scale in E3. apply (op1_X h _ _ _ _ _ _ _ tr) in E3;
+    [|unfold L, n; rewrite trackedOf_off2; reflexivity|unfold L, n; rewrite dirtyOf_off2; reflexivity].
+  destruct E3 as (ov & v2 & Vo & F2 & -> & ->).
+  unfold L, n in Vo. rewrite valOf_off2 in Vo. cbn in Vo. inversion Vo; subst ov. clear Vo.
+  rewrite <- !app_assoc in *. cbn [app] in *. rewrite !app_length in *. cbn [length] in *. fold n L in E4, E5 |- *.
+  (* ElMin x upper *)
+  apply (elsel_X h _ _ _ _ _ _ _ tr tr) in E4;
+    [|apply Tx|unfold L, n; rewrite trackedOf_off2; reflexivity|apply Dx|unfold L, n; rewrite dirtyOf_off2; reflexivity].
+  destruct E4 as (xv' & uv & v3 & Vx2 & Vu & F3 & -> & ->).
+  rewrite Vx' in Vx2. inversion Vx2; subst xv'. clear Vx2.
+  unfold L, n in Vu. rewrite valOf_off2 in Vu. cbn in Vu. inversion Vu; subst uv. clear Vu.
+  rewrite orb_diag in *.
+  rewrite <- !app_assoc in *. cbn [app] in *. rewrite !app_length in *. cbn [length] in *. fold n L in E5 |- *.
+  (* ElMax lower y *)
+  apply (elsel_X h _ _ _ _ _ _ _ tr tr) in E5;
+    [|unfold L, n; rewrite trackedOf_off2; reflexivity|unfold L, n; rewrite trackedOf_off2; reflexivity
+     |unfold L, n; rewrite dirtyOf_off2; reflexivity|unfold L, n; rewrite dirtyOf_off2; reflexivity].
+  destruct E5 as (lv & yv & v4 & Vl' & Vy & F4 & -> & ->).
+  unfold L, n in Vl', Vy. rewrite valOf_off2 in Vl', Vy. cbn in Vl', Vy. inversion Vl'; subst lv. inversion Vy; subst yv.
+  rewrite orb_diag in *.
+  rewrite <- !app_assoc in *. cbn [app] in *. rewrite !app_length in *. cbn [length] in *. fold n L.
+  exists xv, v0, v1, v2, v3, v4. repeat (split; [assumption|]). split; reflexivity.
+Qed.
+End ClipX.
